@@ -65,12 +65,28 @@ impl Handler<Ping> for Echo {
         if self.slow_ms > 0 {
             tokio::time::sleep(Duration::from_millis(self.slow_ms)).await;
         }
-        Ok(Pong { id: ping.id, payload: reply_for(ping.id, &ping.payload, ping.reply_len as usize) })
+        // a request that arrives is the request that was sent, whole
+        let head_len = (8 + ping.id % 5) as usize;
+        if ping.payload != request_payload(ping.id, ping.payload.len()) || ping.payload.len() < head_len {
+            return Err(Status::internal("the handler was given a request that nobody sent"));
+        }
+        Ok(Pong { id: ping.id, payload: reply_for(ping.id, &ping.payload[..head_len], ping.reply_len as usize) })
     }
 }
 
 fn payload_for(id: u64) -> Vec<u8> {
     (0..(8 + id % 5)).map(|i| (id * 31 + i) as u8).collect()
+}
+
+/// A request payload of a given size (0: the short one).
+fn request_payload(id: u64, len: usize) -> Vec<u8> {
+    let mut p = payload_for(id);
+    let mut i = 0u64;
+    while p.len() < len {
+        p.push((id.wrapping_mul(17).wrapping_add(i.wrapping_mul(3))) as u8);
+        i += 1;
+    }
+    p
 }
 
 /// The reply is a function of this very request: its payload reversed, then a pattern of the id up to the length asked for.
@@ -95,6 +111,8 @@ struct Link {
     tx: watch::Sender<Mode>,
     /// bytes the server may still send before the link goes on hold by itself (negative: not armed)
     s2c_budget: AtomicI64,
+    /// the same for bytes from the client (a request stopped half-way)
+    c2s_budget: AtomicI64,
 }
 
 async fn wait_up(rx: &mut watch::Receiver<Mode>) -> bool {
@@ -130,17 +148,18 @@ async fn pump(mut r: tokio::net::tcp::OwnedReadHalf, mut w: tokio::net::tcp::Own
             }
             let mut upto = n;
             let mut hold_after = false;
-            if s2c {
-                let b = link.s2c_budget.load(Ordering::SeqCst);
+            {
+                let budget = if s2c { &link.s2c_budget } else { &link.c2s_budget };
+                let b = budget.load(Ordering::SeqCst);
                 if b >= 0 {
                     let remaining = n - off;
                     if b as usize <= remaining {
                         // the budget is used up inside this piece: deliver that much, then hold
                         upto = off + b as usize;
                         hold_after = true;
-                        link.s2c_budget.store(-1, Ordering::SeqCst);
+                        budget.store(-1, Ordering::SeqCst);
                     } else {
-                        link.s2c_budget.store(b - remaining as i64, Ordering::SeqCst);
+                        budget.store(b - remaining as i64, Ordering::SeqCst);
                     }
                 }
             }
@@ -240,7 +259,7 @@ async fn run_schedule(sched: Vec<Value>, slow_ms: u64) -> (Vec<Observed>, BTreeM
     let (server, server_addr) = start_server(runs.clone(), slow_ms).await;
     let (listener, relay_addr) = listen_retry().await;
     let (tx, _rx) = watch::channel(Mode::Up);
-    let link = Arc::new(Link { tx, s2c_budget: AtomicI64::new(-1) });
+    let link = Arc::new(Link { tx, s2c_budget: AtomicI64::new(-1), c2s_budget: AtomicI64::new(-1) });
     let relay_task = tokio::spawn(relay(listener, server_addr, link.clone()));
 
     let channel = Channel::connect(relay_addr);
@@ -252,11 +271,13 @@ async fn run_schedule(sched: Vec<Value>, slow_ms: u64) -> (Vec<Observed>, BTreeM
             "hold" => { let _ = link.tx.send(Mode::Held); },
             "repair" | "release" => { let _ = link.tx.send(Mode::Up); },
             "hold_reply" => link.s2c_budget.store(s["bytes"].as_i64().unwrap(), Ordering::SeqCst),
+            "hold_request" => link.c2s_budget.store(s["bytes"].as_i64().unwrap(), Ordering::SeqCst),
             "tick" => tokio::time::sleep(Duration::from_millis(TICK_MS)).await,
             "send" => {
                 let id = s["r"].as_u64().unwrap();
                 let timeout_ms = s["timeout"].as_u64().unwrap() * TICK_MS;
                 let reply_len = s["reply_len"].as_u64().unwrap_or(0) as u32;
+                let req_len = s["req_len"].as_u64().unwrap_or(0) as usize;
                 let mut client = RpcClient::<Echo>::new(channel.clone());
                 if timeout_ms > 0 {
                     client.set_timeout(Duration::from_millis(timeout_ms));
@@ -266,11 +287,12 @@ async fn run_schedule(sched: Vec<Value>, slow_ms: u64) -> (Vec<Observed>, BTreeM
                 let obs = observed.clone();
                 tasks.push(tokio::spawn(async move {
                     let start = Instant::now();
-                    let msg = Ping { id, reply_len, payload: payload_for(id) };
+                    let msg = Ping { id, reply_len, payload: request_payload(id, req_len) };
                     let res = client.send(&msg).await;
                     let elapsed_ms = start.elapsed().as_millis() as u64;
                     let o = match res {
                         Ok(view) => {
+                            // (the reply echoes the head of the request only, so that its size is the one asked for)
                             let want = reply_for(id, &payload_for(id), reply_len as usize);
                             match view.deserialize_view() {
                                 Ok(pong) => {
@@ -333,8 +355,14 @@ fn random_schedule(rng: &mut StdRng) -> Vec<Value> {
                 let t = tmos[rng.gen_range(0..7)];
                 let sizes = [0u64, 70_000, 300_000, 1_200_000];
                 let reply_len = if big { sizes[rng.gen_range(0..4)] } else { 0 };
-                out.push(json!({"e": "send", "r": next_id, "timeout": t, "reply_len": reply_len}));
+                let req_len = if big && rng.gen_bool(0.4) { sizes[rng.gen_range(1..4)] } else { 0 };
+                out.push(json!({"e": "send", "r": next_id, "timeout": t, "reply_len": reply_len, "req_len": req_len}));
                 next_id += 1;
+            },
+            // ... or after some more bytes from the client: a request stopped half-way
+            8 if big && link_up => {
+                let bytes = [0i64, 9, 40, 200, 20_000, 100_000][rng.gen_range(0..6)];
+                out.push(json!({"e": "hold_request", "bytes": bytes}));
             },
             // the link goes on hold after some more bytes from the server: inside the reply's head, or half-way through its body
             7 if big && link_up => {
@@ -404,8 +432,8 @@ pub async fn run() {
     let mut held_replies = 0u64;
     for (i, slow_ms, h) in handles {
         let sched = &scheds[i];
-        let faults = sched.iter().filter(|s| ["partition", "hold", "repair", "release", "hold_reply"].contains(&s["e"].as_str().unwrap())).count();
-        held_replies += sched.iter().filter(|s| s["e"] == "hold_reply").count() as u64;
+        let faults = sched.iter().filter(|s| ["partition", "hold", "repair", "release", "hold_reply", "hold_request"].contains(&s["e"].as_str().unwrap())).count();
+        held_replies += sched.iter().filter(|s| s["e"] == "hold_reply" || s["e"] == "hold_request").count() as u64;
         let (obs, runs) = match h.await {
             Ok(x) => x,
             Err(e) => {
